@@ -256,6 +256,8 @@ impl FileHasher<'_> {
             .and_then(|(c, m)| c.key(chunk, m).ok());
         let key = key.as_ref();
         let hash = self.load_hash(key, metadata);
+        #[cfg(fclones_verif)]
+        self.verif_lookup(chunk, key.is_some(), hash.is_some());
         if let Some((_, hash)) = hash {
             progress(chunk.len.0 as usize);
             return Ok(hash);
@@ -316,6 +318,8 @@ impl FileHasher<'_> {
             .and_then(|(c, m)| c.key(chunk, m).ok());
         let key = key.as_ref();
         let hash = self.load_hash(key, metadata);
+        #[cfg(fclones_verif)]
+        self.verif_lookup(chunk, key.is_some(), hash.is_some());
         if let Some(hash) = hash {
             progress(chunk.len.0 as usize);
             return Ok(hash);
@@ -392,6 +396,23 @@ impl FileHasher<'_> {
                 ));
                 None
             }
+        }
+    }
+
+    /// Verification hook: one event per cache lookup of a chunk (hit or miss).
+    #[cfg(fclones_verif)]
+    fn verif_lookup(&self, chunk: &FileChunk<'_>, cached: bool, hit: bool) {
+        if cached && crate::verif::enabled() {
+            crate::verif::emit(
+                "CacheLookup",
+                &format!(
+                    "\"path\":{},\"pos\":{},\"len\":{},\"hit\":{}",
+                    crate::verif::jpath(chunk.path),
+                    chunk.pos.0,
+                    chunk.len.0,
+                    hit
+                ),
+            );
         }
     }
 
